@@ -1191,6 +1191,7 @@ func mutOps() []mutOp {
 			}
 			return ""
 		}},
+		{"repeated-directive-lost", "", mutRepeatedDirectiveLost},
 		{"subscription-two-roots", "subscription", func(m *mut) string {
 			td := m.s.Type(m.s.S)
 			var other *FD
